@@ -21,17 +21,66 @@ TRUSTED = [
     "harness/samplers.py spies (torch.Generator subclass, wrapped randperm/randint/multinomial) and case rendering",
     "'set_epoch changes the draw' is proved for the seed argument only; that torch then draws differently is observed "
     "(requests of >= 10 elements)",
+    "one sampler object over a call sequence (set_epoch(e) / list(sampler) in any order): the model says set_epoch only "
+    "assigns self.epoch and __iter__ assigns nothing (distributed_/weighted_/class_balanced_object_history); tied to the "
+    "code by running one real object of a random rank through a random call sequence per case (list(sampler) again "
+    "without set_epoch, set_epoch(e') and back to e) and replaying it in Coq with a draw oracle keyed by the generator "
+    "seed (a call that seeds alike but draws differently disagrees with the model); the Python oracle compares every "
+    "call with a fresh sampler of that (seed, epoch, rank)",
+    "DataLoader tie (Python only, no Coq model of torch's DataLoader): DataLoader(dataset, sampler=s, batch_size=b, "
+    "drop_last, num_workers 0 (quick, thorough) / 2 (thorough)) delivers exactly the rank's stream cut by the batch "
+    "size, also for the next epoch through the same loader object after set_epoch",
+    "runaway guard: a sampler run is abandoned after %g s of process CPU time (ITIMER_VIRTUAL) or %g s wall "
+    "(ITIMER_REAL fallback) or %d draws and reported as 'iteration does not return'" % (S.CPU_LIMIT, S.WALL_LIMIT, S.MAX_DRAWS),
 ]
 ASSUMPTIONS = ["world size W >= 1, rank < W, num_repeats >= 1; num_repeats > 1 requires shuffle (the code asserts it)",
                "RandomSampler: num_samples=None, explicit generator, n >= 1",
                "WeightedSampler: 1 <= size <= n or None, n >= 1; ClassBalancedSampler in C12: only the rank split "
-               "(composition is C13)"]
+               "(composition is C13)",
+               "samplers of kappadata/samplers outside C12: InterleavedSampler (C04-C06), SemiSampler (C13; per-rank "
+               "generators, no shared global draw), SequentialSampler (no rank split, no draw), InfiniteBatchSampler (a "
+               "BatchSampler over any sampler: no rank split of its own; its __iter__ refers to undefined names "
+               "epoch/update/sample, so an `epochs=`/`updates=`/`samples=` limit raises NameError at the first epoch "
+               "boundary - outside every property's anchor, reported only), samplers/base/SamplerBase (unused, not exported; "
+               "its __iter__ reads an undefined self.total_size - reported only)"]
 RULE = ("dist 55% / cb 15% / weighted 15% / rand 15%; n in 0..25 (thorough ..60) incl. n < W, W in 1..7 (thorough ..9), all ranks, "
         "epochs 0..3, seeds 0..999, num_repeats 1..4, drop_last and shuffle on/off; non-trivial = at least 2 ranks and "
-        "a non-empty merged stream; distinct by (kind, n, W, rep, drop_last, shuffle, epoch)")
+        "a non-empty merged stream; distinct by (kind, n, W, rep, drop_last, shuffle, epoch, #calls); every non-rand case "
+        "also drives ONE object of a random rank through 2..5 list(sampler) calls with set_epoch(e') / back to e / no "
+        "set_epoch in between; plus 40 (thorough 340) samplers behind a real DataLoader (batch 1..7, drop_last on/off, "
+        "workers 0, thorough also 2)")
+
+
+def gen_ops(rng, epoch):
+    """call sequence for one sampler object: starts like the per-rank runs (set_epoch(epoch) unless epoch is None, then
+    list(sampler)), then a mix of: list(sampler) again without set_epoch, set_epoch(e') + list, set_epoch(epoch) + list"""
+    ops = ([] if epoch is None else [["set", epoch]]) + [["iter"]]
+    e0 = epoch or 0
+    for _ in range(rng.choice([1, 2, 2, 3])):
+        q = rng.random()
+        if q < 0.35:
+            ops.append(["iter"])                       # iterated again, no set_epoch in between
+        elif q < 0.75:
+            ops += [["set", rng.choice([e0 + 1, e0 + 2, rng.randrange(6)])], ["iter"]]
+        else:
+            ops += [["set", e0], ["iter"]]             # back to the first epoch
+    if rng.random() < 0.5:
+        ops += [["set", e0], ["iter"]]
+    return ops
+
+
+def with_ops(rng, case):
+    if case["kind"] != "rand":
+        case["ops"] = gen_ops(rng, case["epoch"])
+        case["ops_rank"] = rng.randrange(case["W"])
+    return case
 
 
 def gen_case(rng, big=False):
+    return with_ops(rng, gen_case0(rng, big))
+
+
+def gen_case0(rng, big=False):
     r = rng.random()
     W = rng.choice([1, 2, 2, 3, 3, 4, 5, 6, 7] + ([8, 9] if big else []))
     seed = rng.randrange(1000)
@@ -72,8 +121,9 @@ def gen_case(rng, big=False):
 
 def gen_cases(rng, tier):
     if tier == "quick":
-        return [gen_case(rng) for _ in range(900)]
-    return [gen_case(rng) for _ in range(6000)] + [gen_case(rng, big=True) for _ in range(2500)]
+        return [gen_case(rng) for _ in range(900)] + [gen_loader(rng, 0) for _ in range(40)]
+    return ([gen_case(rng) for _ in range(6000)] + [gen_case(rng, big=True) for _ in range(2500)]
+            + [gen_loader(rng, 0) for _ in range(300)] + [gen_loader(rng, 2) for _ in range(40)])
 
 
 def search_cases(rng, tier):
@@ -89,7 +139,23 @@ def search_cases(rng, tier):
 
 
 def shrink(c):
-    if c.get("epoch") not in (None, 0):
+    if c["kind"] == "loader":
+        sc = c["sampler"]
+        for cand in shrink(sc):
+            yield {**c, "sampler": cand}
+        if c["workers"]:
+            yield {**c, "workers": 0}
+        if c["batch"] > 1:
+            yield {**c, "batch": c["batch"] - 1}
+        return
+    if c.get("ops"):
+        ops = c["ops"]
+        yield {k: v for k, v in c.items() if k not in ("ops", "ops_rank")}
+        for i in range(len(ops) - 1, 0, -1):
+            yield {**c, "ops": ops[:i] + ops[i + 1:]}
+        if c.get("ops_rank"):
+            yield {**c, "ops_rank": 0}
+    if c.get("epoch") not in (None, 0) and not c.get("ops"):
         yield {**c, "epoch": 0}
     if c.get("seed"):
         yield {**c, "seed": 0}
@@ -99,7 +165,7 @@ def shrink(c):
         if c["rep"] > 1:
             yield {**c, "rep": c["rep"] - 1}
     if c["kind"] != "rand" and c["W"] > 1:
-        yield {**c, "W": c["W"] - 1}
+        yield {**c, "W": c["W"] - 1, "ops_rank": min(c.get("ops_rank", 0), c["W"] - 2)}
     if c["kind"] == "cb":
         for i in range(len(c["classes"])):
             yield {**c, "classes": c["classes"][:i] + c["classes"][i + 1:]}
@@ -110,23 +176,120 @@ def shrink(c):
                "size": None if c["size"] is None else min(c["size"], c["n"] - 1)}
 
 
+# ---------------------------------------------------------------------------
+# the samplers behind a real DataLoader: delivered batches = the rank's stream cut by the batch size
+# ---------------------------------------------------------------------------
+def gen_loader(rng, workers):
+    while True:
+        sc = gen_case0(rng)
+        if sc["kind"] != "rand" and expected_result(sc) == "ok" and sc["W"] <= 3:
+            break
+    sc["epoch"] = rng.choice([0, 1, 2])
+    return {"kind": "loader", "W": sc["W"], "sampler": sc, "batch": rng.choice([1, 2, 3, 4, 7]),
+            "drop_last_batch": rng.random() < 0.4, "workers": workers, "epoch": sc["epoch"]}
+
+
+def _run_loader(case):
+    from torch.utils.data import DataLoader
+    sc = case["sampler"]
+    out = {"ranks": []}
+    for r in range(sc["W"]):
+        s = S.build(sc, r, sc["W"])
+        s.set_epoch(sc["epoch"])
+        expect = [int(i) for i in s]
+        loader = DataLoader(s.dataset, sampler=s, batch_size=case["batch"], drop_last=case["drop_last_batch"],
+                            num_workers=case["workers"])
+        n_batches = len(loader)
+        got = [[int(v) for v in b.tolist()] for b in loader]
+        # the next epoch through the same loader object
+        s.set_epoch(sc["epoch"] + 1)
+        got2 = [[int(v) for v in b.tolist()] for b in loader]
+        s2 = S.build(sc, r, sc["W"])
+        s2.set_epoch(sc["epoch"] + 1)
+        out["ranks"].append({"stream": expect, "batches": got, "len_loader": n_batches, "batches_next": got2,
+                             "stream_next": [int(i) for i in s2]})
+    return out
+
+
+def run_loader(case):
+    try:
+        with S.Alarm(cpu=30.0, wall=300.0):
+            return _run_loader(case)
+    except S.Runaway:
+        return {"ranks": [], "runaway": True}
+
+
+def cut(stream, b, drop):
+    out = [stream[i:i + b] for i in range(0, len(stream), b)]
+    if drop and out and len(out[-1]) < b:
+        out.pop()
+    return out
+
+
+def oracle_loader(case, obs):
+    if obs.get("runaway"):
+        return "DataLoader over the sampler does not return"
+    b, drop = case["batch"], case["drop_last_batch"]
+    for r, o in enumerate(obs["ranks"]):
+        want = cut(o["stream"], b, drop)
+        if o["batches"] != want:
+            return (f"rank {r}: DataLoader(sampler=..., batch_size={b}, drop_last={drop}, num_workers={case['workers']}) "
+                    f"delivers {o['batches']}, the rank's stream cut by the batch size is {want}")
+        if o["len_loader"] != len(want):
+            return f"rank {r}: len(DataLoader) = {o['len_loader']}, delivered {len(want)} batches"
+        if o["batches_next"] != cut(o["stream_next"], b, drop):
+            return (f"rank {r}: after set_epoch({case['epoch'] + 1}) the same DataLoader delivers {o['batches_next']}, "
+                    f"a fresh sampler's stream is {o['stream_next']}")
+    lens = {sum(len(x) for x in o["batches"]) for o in obs["ranks"]}
+    if len(lens) > 1:
+        return f"ranks receive different numbers of samples through their DataLoaders: {sorted(lens)}"
+    return None
+
+
 def run_impl(case):
+    if case["kind"] == "loader":
+        return run_loader(case)
     W = case["W"]
-    obs = {"ranks": [S.run_rank(case, r, W) for r in range(W)]}
+    run_rank = S.run_rank_guarded
+    obs = {"ranks": [], "G": [], "hist": None}
+    for r in range(W):
+        obs["ranks"].append(run_rank(case, r, W))
+        if obs["ranks"][-1]["result"] == "RUNAWAY":     # do not wait for the same hang again and again
+            return obs
     if case["kind"] == "rand":
         obs["G"] = obs["ranks"][0]["stream"]
-        obs["again"] = S.run_rank(case, 0, 1)["stream"]
+        obs["again"] = run_rank(case, 0, 1)["stream"]
         return obs
-    g = S.run_rank(case, 0, 1)
+    g = run_rank(case, 0, 1)
     obs["G"] = g["stream"]
     obs["G_result"] = g["result"]
     e = case["epoch"] or 0
     # equal (seed, epoch) reproduces; equal seed + epoch as well; the next epoch draws differently
-    obs["again"] = S.run_rank(case, W - 1, W)["stream"]
-    obs["shifted"] = S.run_rank(case, W - 1, W, epoch=e + 1, seed=case["seed"] - 1)["stream"]
-    nxt = S.run_rank(case, 0, W, epoch=e + 1)
+    obs["again"] = run_rank(case, W - 1, W)["stream"]
+    obs["shifted"] = run_rank(case, W - 1, W, epoch=e + 1, seed=case["seed"] - 1)["stream"]
+    nxt = run_rank(case, 0, W, epoch=e + 1)
     obs["next"] = {"seeds": nxt["seeds"], "draws": nxt["draws"], "result": nxt["result"]}
+    # one sampler object: set_epoch sequences, iterated again without set_epoch
+    if case.get("ops"):
+        hr = case.get("ops_rank", 0)
+        obs["hist"] = S.run_ops_guarded(case, hr, W, case["ops"])
+        # what fresh samplers show for every epoch the object went through
+        obs["fresh"] = {}
+        for ep in sorted(set(iter_epochs(case["ops"]))):
+            f = run_rank(case, hr, W, epoch=ep)
+            obs["fresh"][str(ep)] = {"stream": f["stream"], "result": f["result"]}
     return obs
+
+
+def iter_epochs(ops):
+    """the epoch in force at every list(sampler) call of a fresh object (self.epoch = 0 initially)"""
+    cur, out = 0, []
+    for op in ops:
+        if op[0] == "set":
+            cur = op[1]
+        else:
+            out.append(cur)
+    return out
 
 
 def expected_result(case):
@@ -143,20 +306,60 @@ def expected_result(case):
     return "ok"
 
 
+def oracle_history(case, obs, L):
+    """one sampler object: every list(sampler) call has len(sampler) entries, is seeded with seed + the epoch in force,
+    and shows what a fresh sampler of that (seed, epoch, rank) shows; calls under equal epochs show equal streams"""
+    hist = [r for r in obs["hist"] if r is not None]
+    eps = iter_epochs(case["ops"])
+    hr = case.get("ops_rank", 0)
+    what = f"one sampler object (rank {hr}) driven through {case['ops']}"
+    for k, (ep, r) in enumerate(zip(eps, hist)):
+        if r["result"] == "RUNAWAY":
+            return f"{what}: list(sampler) call {k} does not return"
+        if r["result"] != "ok":
+            return f"{what}: list(sampler) call {k} (epoch {ep}) fails with {r['result']}"
+        if r["alien"]:
+            return f"{what}: call {k} draws without the epoch's generator"
+        if r["len"] != L or len(r["stream"]) != L:
+            return f"{what}: call {k} (epoch {ep}) has len {r['len']} and yields {len(r['stream'])} indices, expected {L}"
+        fr = obs["fresh"][str(ep)]
+        if fr["result"] != "ok" or fr["stream"] != r["stream"]:
+            return (f"{what}: call {k} under epoch {ep} yields {r['stream']}, a fresh sampler with equal "
+                    f"(seed, epoch, rank) yields {fr['stream']} ({fr['result']})")
+        if any(s != case["seed"] + ep for s in r["seeds"]):
+            return (f"{what}: call {k} seeds its generator with {r['seeds']}, not seed + epoch = "
+                    f"{case['seed'] + ep}")
+    for a in range(len(hist)):
+        for b in range(a + 1, len(hist)):
+            if eps[a] == eps[b] and hist[a]["stream"] != hist[b]["stream"]:
+                return (f"{what}: calls {a} and {b} are both under epoch {eps[a]} but yield {hist[a]['stream']} "
+                        f"and {hist[b]['stream']}")
+    e = case["epoch"] or 0
+    if eps and eps[0] == e and hist[0]["stream"] != obs["ranks"][hr]["stream"]:
+        return f"{what}: first call differs from the fresh sampler of rank {hr}"
+    return None
+
+
 def oracle(case, obs):
     if "harness_exception" in obs:
         return "harness exception: " + obs["harness_exception"] + obs.get("tb", "")
+    if case["kind"] == "loader":
+        return oracle_loader(case, obs)
     W, k = case["W"], case["kind"]
     ranks = obs["ranks"]
     exp = expected_result(case)
     for r, o in enumerate(ranks):
         if o["result"] == "RUNAWAY":
-            return f"rank {r}: construction/iteration does not return (more than {S.MAX_DRAWS} draws)"
+            return (f"rank {r}: iteration does not return (more than {S.MAX_DRAWS} draws requested from the generator, "
+                    f"or still running after {S.CPU_LIMIT} s of CPU time)")
         if o["result"] != exp:
             return f"rank {r}: expected {exp}, got {o['result']}"
         if o["alien"]:
             return f"rank {r}: a draw was made without the epoch's generator (or with replacement)"
     if exp != "ok":
+        for r in (obs.get("hist") or []):
+            if r is not None and r["result"] != exp:
+                return f"one sampler object driven through {case['ops']}: expected {exp}, got {r['result']}"
         return None
     L = ranks[0]["len"]
     for r, o in enumerate(ranks):
@@ -205,32 +408,61 @@ def oracle(case, obs):
         for i, g in enumerate(G):
             if g != perm[i // case["rep"]]:
                 return f"slot {i} of the global draw is {g}, not perm[{i} // {case['rep']}] = {perm[i // case['rep']]}"
-    if k == "dist" and not case["shuffle"] and G != list(range(case["n"])):
-        return "shuffle=False does not yield 0..n-1"
+    if k == "dist" and not case["shuffle"]:
+        if G != list(range(case["n"])):
+            return "shuffle=False does not yield 0..n-1"
+        if any(o["seeds"] or o["draws"] for o in ranks):
+            return "shuffle=False but a generator was seeded / asked for a draw"
+    if obs.get("hist"):
+        msg = oracle_history(case, obs, L)
+        if msg:
+            return msg
     if k == "rand" and len(G) != case["n"]:
         return f"RandomSampler yields {len(G)} indices for n = {case['n']}"
     return None
 
 
 def coq_applicable(case, obs):
-    if "harness_exception" in obs:
+    if "harness_exception" in obs or case["kind"] == "loader":
+        return False
+    if len(obs["ranks"]) != case["W"]:      # a rank ran away: reported by the oracle, nothing to compare
+        return False
+    if any(r is not None and r["result"] not in S.CODE for r in (obs.get("hist") or [])):
         return False
     return all(o["result"] in S.CODE for o in obs["ranks"])
 
 
 def coq_case(case, obs):
-    return coq((S.coq_cfg(case), [S.coq_rank(o) for o in obs["ranks"]], S.nats(obs["G"])))
+    if obs.get("hist"):
+        hist = S.coq_hist(case.get("ops_rank", 0), case["ops"], obs["hist"])
+    else:
+        hist = (S.Nat(0), S.Raw("[]"))
+    return coq((S.coq_cfg(case), [S.coq_rank(o) for o in obs["ranks"]], S.nats(obs["G"]), hist))
 
 
 def features(case, obs):
     yield "kind=" + case["kind"]
     yield "W=%d" % case["W"]
+    if case["kind"] == "loader":
+        yield "loader:sampler=" + case["sampler"]["kind"]
+        yield "loader:workers=%d" % case["workers"]
+        return
+    if case.get("ops"):
+        eps = iter_epochs(case["ops"])
+        yield "ops:list(sampler) calls=%d" % len(eps)
+        yield "ops:iterated again without set_epoch=%s" % any(
+            a[0] == "iter" and b[0] == "iter" for a, b in zip(case["ops"], case["ops"][1:]))
+        yield "ops:returns to an earlier epoch=%s" % any(
+            eps[i] == eps[j] and any(eps[m] != eps[i] for m in range(i, j)) for i in range(len(eps)) for j in range(i, len(eps)))
     if "ranks" in obs:
         yield "result=" + obs["ranks"][0]["result"].split(":")[0]
     if case["kind"] == "dist":
         yield "dist:n<W=%s" % (case["n"] < case["W"])
         yield "dist:rep=%d" % case["rep"]
         yield "dist:drop_last=%s" % case["drop_last"]
+        yield "dist:shuffle=%s" % case["shuffle"]
+        if not case["shuffle"] and case["rep"] > 1:
+            yield "dist:num_repeats>1 without shuffle (rejected)"
         n, W = case["n"], case["W"]
         if not case["drop_last"] and n and (-n) % W > n:
             yield "dist:padding>len"
@@ -238,7 +470,13 @@ def features(case, obs):
 
 
 def nontrivial_key(case, obs):
+    if case["kind"] == "loader":
+        sc = case["sampler"]
+        if not obs.get("ranks") or not any(o["batches"] for o in obs["ranks"]):
+            return None
+        return ("loader", sc["kind"], sc.get("n", len(sc.get("classes", []))), sc["W"], case["batch"],
+                case["drop_last_batch"], case["workers"])
     if "ranks" not in obs or case["W"] < 2 or not any(o["stream"] for o in obs["ranks"]):
         return None
     return (case["kind"], case.get("n", len(case.get("classes", []))), case["W"], case.get("rep"),
-            case.get("drop_last"), case.get("shuffle"), case["epoch"])
+            case.get("drop_last"), case.get("shuffle"), case["epoch"], len(case.get("ops") or []))
